@@ -21,6 +21,7 @@
 import LabreaModel.CacheLemmas
 import LabreaModel.EvalLemmas
 import LabreaModel.CacheTransparency
+import LabreaModel.DatasetTransparency
 namespace Labrea
 
 variable (env : Env) (run : Run) (x : Expr) (c : Nat) (o : V)
@@ -207,5 +208,122 @@ theorem optionA_fingerprint_sound (n : Nat) :
     rw [h]
 
 end C01NonVacuity
+
+
+/-! ### An unconditional instance: `cached(Option(key))`, every key, every history
+
+  The hypotheses of the reduction hold of `Option(key)` under the real interpreter for EVERY dotted key, every node id,
+  every fuel ≥ 3 and every state, on the dictionaries that hold an integer under the key (and do not set the library's
+  cache switches).  Hence: for any such key and any finite history of such dictionaries evaluated on one long-lived
+  store, `cached(Option(key))` returns exactly what evaluation with caching switched off returns. -/
+namespace C01Option
+
+def gEnv : Env :=
+  { β := fun f a k => .ok (.app f a k), binds := fun _ _ => .error "x", ov := fun _ => default, ds := fun _ => default,
+    cacheKind := fun _ => .memory }
+
+/-- the dictionaries: the option holds an integer, the library's cache switches are not set -/
+def DInt (key : String) (o : V) : Prop :=
+  (∃ i, getDotted key o = .found (.int i)) ∧ getDotted "LABREA.CACHE.DISABLED" o = .keyErr ∧
+    getDotted "LABREA.CACHE.DISABLE" o = .keyErr
+
+def vOf (key : String) (o : V) : V := match getDotted key o with | .found v => v | _ => .none
+
+theorem g_cd (key : String) (o : V) (h : DInt key o) (n : Nat) (s : St) :
+    ∃ s', cacheDisabled gEnv (ev gEnv (n + 3)) o s = some (.ok false, s') ∧ s'.E 0 = s.E 0 := by
+  obtain ⟨_, h1, h2⟩ := h
+  simp only [cacheDisabled, gEnv, Bool.false_eq_true]
+  simp [ev, cacheDisabledOption, optFalse, nodeOp, optionOp, readKey, bind_run, emit_run, pure_run, h1, h2, wrapEvaluate, handle, V.truthy]
+  rfl
+
+theorem g_in (key : String) (id : Nat) (o : V) (h : DInt key o) (n : Nat) (s : St) :
+    ∃ s', ev gEnv (n + 3) .evaluate (.option id key Option.none Option.none) o s = some (.ok (vOf key o), s') ∧ s'.E 0 = s.E 0 := by
+  obtain ⟨⟨i, hi⟩, _, _⟩ := h
+  simp [ev, gEnv, nodeOp, optionOp, readKey, bind_run, emit_run, pure_run, hi, wrapEvaluate, handle, resolveM, resolveR, emitAll, vOf]
+  rfl
+
+theorem g_fp (key : String) (id : Nat) (o : V) (h : DInt key o) (n : Nat) (s : St) :
+    ∃ s', fingerprintOf (ev gEnv (n + 3)) (.option id key Option.none Option.none) o s =
+      some (.ok (.list [.dict [(key, vOf key o)]]), s') ∧ s'.E 0 = s.E 0 := by
+  obtain ⟨⟨i, hi⟩, _, _⟩ := h
+  simp [fingerprintOf, ev, gEnv, nodeOp, optionOp, existsKey, getKey, readKey, bind_run, emit_run, pure_run, hi, templatedStrings, mapM',
+    unionAll, unionV, unionKeys, keySet, dedup, V.setElems, keyStrings, sortStrings, insertSorted, vOf]
+  simp [fpItems, getKey, readKey, bind_run, emit_run, pure_run, hi]
+  rfl
+
+theorem option_fingerprint_sound (key : String) (id n : Nat) :
+    FingerprintSound gEnv (ev gEnv (n + 3)) (.option id key Option.none Option.none) 0 (DInt key)
+      (fun o => .list [.dict [(key, vOf key o)]]) (fun o => .ok (vOf key o)) where
+  memory := rfl
+  enabled := fun o ho s => g_cd key o ho n s
+  fingerprint := fun o ho s => g_fp key id o ho n s
+  inner := fun o ho s => g_in key id o ho n s
+  sufficient := by
+    intro o o' _ _ h
+    simp only [V.list.injEq, List.cons.injEq, V.dict.injEq, Prod.mk.injEq, true_and, and_true] at h
+    rw [h]
+
+/-- **cached_option_transparent.** For every key, every finite history `hist` of dictionaries holding an integer under
+    it, evaluated one after the other on one store that was empty at the start, and every further such dictionary
+    `o`: the evaluation of `cached(Option(key))` on `o` returns the option's value in `o` — whatever was evaluated
+    before. -/
+theorem cached_option_transparent (key : String) (id n : Nat) (hist : List V) (hD : ∀ o ∈ hist, DInt key o)
+    (s : St) (hempty : s.cacheEntries 0 = []) (o : V) (ho : DInt key o) (s1 : St)
+    (hs : (hist.foldl (fun (st : Option St) oi => st.bind fun t =>
+        (cachedOp gEnv (ev gEnv (n + 3)) (.option id key Option.none Option.none) 0 .evaluate oi t).map Prod.snd) (some s)) = some s1)
+    (r : Except Err V) (s2 : St)
+    (h : cachedOp gEnv (ev gEnv (n + 3)) (.option id key Option.none Option.none) 0 .evaluate o s1 = some (r, s2)) :
+    r = .ok (vOf key o) :=
+  cache_transparent_of_fingerprint_sound (option_fingerprint_sound key id n) hist hD s hempty o ho s1 hs r s2 h
+
+end C01Option
+
+
+/-! ### An unconditional instance for a real dataset
+
+  `@dataset def d(p = Option(key)): return body(p=p)` (no dispatch, no effects, identity callback, MemoryCache): the node
+  its cache wraps is `dsInner` — `Logged(Computation(Apply(Overloaded, Pipeline()), []))` — and the hypotheses of the
+  reduction are PROVED for it (`dataset_fingerprint_sound`, DatasetTransparency.lean) under the real interpreter, for
+  every key, parameter name, body, environment of that shape, fuel and state. -/
+
+/-- **dataset_cache_transparent.** For every dataset of that shape and every finite history of dictionaries holding an
+    integer under its key (library switches unset), evaluated one after the other on one long-lived store that was
+    empty at the start: the next evaluation of the dataset's cached node returns `body(p = o[key])` — exactly the
+    uncached outcome — whatever was evaluated before, in whatever order, however often. -/
+theorem dataset_cache_transparent {env : Env} {ovid cid : Nat} {key pname body : String} {out : Int → V}
+    (H : SimpleDataset env ovid cid key pname body out) (hk : env.cacheKind cid = .memory) (n id : Nat) (msg : String)
+    (hist : List V) (hD : ∀ o ∈ hist, DsDict key o) (s : St) (hempty : s.cacheEntries cid = [])
+    (o : V) (ho : DsDict key o) (s1 : St)
+    (hs : (hist.foldl (fun (st : Option St) oi => st.bind fun t =>
+        (cachedOp env (ev env (n + 9)) (dsInner id ovid msg) cid .evaluate oi t).map Prod.snd) (some s)) = some s1)
+    (r : Except Err V) (s2 : St)
+    (h : cachedOp env (ev env (n + 9)) (dsInner id ovid msg) cid .evaluate o s1 = some (r, s2)) :
+    r = .ok (out (intOf key o)) :=
+  cache_transparent_of_fingerprint_sound (dataset_fingerprint_sound H hk n id msg) hist hD s hempty o ho s1 hs r s2 h
+
+namespace C01Dataset
+/-- a concrete environment of that shape: the body is the opaque user function `load`, the parameter `n` reads `A` -/
+def dEnv : Env :=
+  { β := fun f a k => .ok (.app f a k), binds := fun _ _ => .error "x",
+    ov := fun _ => { dispatch := .value 20 .missing, table := [], dflt := some (dsBody "A" "n" "load") },
+    ds := fun _ => default, cacheKind := fun _ => .memory }
+
+theorem dEnv_simple : SimpleDataset dEnv 1 0 "A" "n" "load" (fun i => .app "load" [] [("n", .int i)]) where
+  subst := rfl
+  logOn := rfl
+  cacheOn := rfl
+  ov := rfl
+  β := fun _ => rfl
+
+open C01NonVacuity in
+theorem dDict (i : Int) : DsDict "A" (oA i) where
+  int := ⟨i, gd3 i⟩
+  c1 := gd1 i
+  c2 := gd2 i
+  l := by simp [getDotted, oA, show splitKey "LABREA.LOGGING.DISABLED" = ["LABREA", "LOGGING", "DISABLED"] by decide +kernel,
+    walk, step, si1, alookup]
+  e := by simp [getDotted, oA, show splitKey "LABREA.EFFECTS.DISABLED" = ["LABREA", "EFFECTS", "DISABLED"] by decide +kernel,
+    walk, step, si1, alookup]
+end C01Dataset
 
 end Labrea
